@@ -353,7 +353,7 @@ func c12Arg(g *simrt.Chooser) (v interface{}, canon []byte, isFloat int) {
 		case 2:
 			b = []byte("\r\n$5\r\nx\r\n*1\r\n")
 		case 3:
-			b = g.Bytes("b", 1024<<g.Choose("bbig", 8))
+			b = g.Bytes("b", 1024<<g.Choose("bbig", 12)) // up to 2 MiB: the connection's writer buffer is 1 MiB
 		default:
 			b = []byte(strconv.Itoa(g.Choose("num", 100000)))
 		}
